@@ -314,6 +314,16 @@ def _fresh_answer(ctx, P, data, kind):
     return out["valid"], out.get("start"), out.get("end")
 
 
+def _further_site(st, ent):
+    try:
+        ent._match
+    except st.errors.IllegalSite:
+        return True
+    except st.errors.InvalidSequence:
+        return False
+    return False
+
+
 def ob_fresh_interpreter(ctx):
     """after other records (among them one declared linear) have been validated against the class and its relatives,
     the class answers a query exactly as a fresh interpreter does"""
@@ -339,6 +349,18 @@ def ob_fresh_interpreter(ctx):
     ctx.observe("valid", v)
     v2, s2, e2 = _fresh_answer(ctx, P, r, kind)
     ctx.require(v == v2, "verdict-differs-from-a-fresh-interpreter")
+    if P.get("twice"):
+        # the entity's own first answer is history too: asked again, it still answers as a fresh interpreter does
+        ctx.require(e.is_valid() == v2, "second-verdict-of-the-same-entity-differs-from-a-fresh-interpreter")
+        if not v2:
+            for acc in ("overhang_start", "overhang_end", "target_sequence"):
+                try:
+                    getattr(e, acc)()
+                    ok = False
+                except st.errors.InvalidSequence:
+                    ok = True
+                ctx.require(ok, "rejected-record-answers-" + acc + "-on-the-second-ask")
+            ctx.witness("rejected-for-a-further-site", _further_site(st, e))
     ctx.witness("accepted" if v else "rejected")
     if v:
         ctx.require(seq_eq(e.overhang_start(), s2) and True, "overhang_start-differs-from-a-fresh-interpreter")
@@ -417,6 +439,11 @@ def obligations(tier, seed):
                 kit, name, F + 1, "plain SeqRecord (no topology annotation)" if kind == "plain" else "CircularRecord"),
                 ob_fresh_interpreter, dict(kit=kit, cls=name, n=F + 1, kind=kind), samples=3, cost=3 * (F + 1) ** 3,
                 group="fresh interpreter", expect_witness=("accepted", "rejected", "match-wraps-origin")))
+    F = fixed_letters(kit_class(st, "ytk", "YTKPart1").structure())
+    obs.append(Ob("ytk.YTKPart1 n=%d (room for a further site) on a CircularRecord record, asked twice vs in a fresh interpreter" % (F + 7),
+                  ob_fresh_interpreter, dict(kit="ytk", cls="YTKPart1", n=F + 7, kind="circular", twice=True), samples=3,
+                  cost=6 * (F + 7) ** 3, group="fresh interpreter",
+                  expect_witness=("accepted", "rejected", "rejected-for-a-further-site")))
     for role, sig in tier_pick(tier, [("module", ("AATG", "NNNN"))], [("module", ("AATG", "NNNN")), ("vector", ("NNNN", "GCTT"))]):
         F = fixed_letters(generic_class(st, role, "BsaI").structure())
         obs.append(Ob("entry point characterize on a concrete %s type, asked first vs after other validations n=%d" % (role, F + 1),
